@@ -40,6 +40,28 @@ __CPROVER_assigns()
   __CPROVER_assert(a.stateAdvance != b.stateAdvance, "two scheduled chunks never share a state object");
   if (wait) __CPROVER_assert(a.stateAdvance != callerChunk, "a scheduled chunk never uses the caller's state object");
 }
+/* C12 (static path): every chunk index in [0, numThreads) is run by someone: the caller runs callerChunk (wait), every other chunk is
+ * produced by the scheduler index given as witness; with injectivity (c14_static_states_distinct) the scheduled chunks and the
+ * caller's chunk are exactly the chunk indices, each once */
+void c12_static_chunks_cover(size_type c, size_type callerChunk, bool wait, size_type numThreads)
+__CPROVER_requires(numThreads >= 1 && (mathint)numThreads <= 2147483647 && 0 <= callerChunk && callerChunk < numThreads && 0 <= c && c < numThreads)
+__CPROVER_assigns()
+{
+  if (wait && c == callerChunk) return;      /* run by the calling thread (psi_callerRun) */
+  size_t idx = (size_t)((wait && c > callerChunk) ? c - 1 : c);
+  __CPROVER_assert((mathint)idx < (mathint)numThreads - (wait ? 1 : 0), "the witness is a scheduled index");
+  Remap a = psi_remap(idx, callerChunk, wait, numThreads);
+  __CPROVER_assert(a.chunkIdx == c, "every chunk other than the caller's is produced by a scheduler index");
+}
+/* the chunk the calling thread runs itself (wait == true) is callerChunk, with the state object of that index */
+typedef struct CallerRun { size_type boundsArg; size_type stateAdvance; } CallerRun;
+CallerRun psi_callerRun(size_type callerChunk)
+__CPROVER_ensures(RV.boundsArg == callerChunk && RV.stateAdvance == callerChunk)
+__CPROVER_assigns()
+{
+#include "psi_callerRun.slice.inc"
+  return (CallerRun){callerBoundsArg, stateAdvance};
+}
 /* caller chunk selection */
 size_type psi_callerChunk(int32_t callerRing, size_type numThreads)
 __CPROVER_requires(numThreads >= 1 && (mathint)numThreads <= 2147483647)
